@@ -24,13 +24,13 @@ def main(kind, pid, root):
             d = json.loads(l)
             props[d['id']] = d
     p = props[pid]
-    name = {'neutral': 'neutral_example.txt', 'seed': 'seeder_round_e_example.txt', 'seed_f': 'seeder_round_f_example.txt', 'seed_g': 'seeder_round_g_example.txt', 'seed_i': 'seeder_round_i_example.txt'}[kind]
+    name = {'neutral': 'neutral_example.txt', 'neutral2': 'neutral_round2_example.txt', 'seed': 'seeder_round_e_example.txt', 'seed_f': 'seeder_round_f_example.txt', 'seed_g': 'seeder_round_g_example.txt', 'seed_i': 'seeder_round_i_example.txt'}[kind]
     tmpl = (VERIF / 'harness' / 'prompts' / name).read_text()
-    old_root = {'neutral': '/tmp/neutral/C17', 'seed': '/tmp/seed_e/C17', 'seed_f': '/tmp/seed_f/C17', 'seed_g': '/tmp/seed_g/C17', 'seed_i': '/tmp/seed_i/C17'}[kind]
+    old_root = {'neutral': '/tmp/neutral/C17', 'neutral2': '/tmp/neutral2/C17', 'seed': '/tmp/seed_e/C17', 'seed_f': '/tmp/seed_f/C17', 'seed_g': '/tmp/seed_g/C17', 'seed_i': '/tmp/seed_i/C17'}[kind]
     start = tmpl.index('  id: C17')
     end = tmpl.index('\n\nYOUR TASK')
     text = tmpl[:start] + prop_block(p) + tmpl[end:]
-    return text.replace(old_root, f'{root}/{pid}').replace('/tmp/neutral_tmp_C17', f'/tmp/neutral_tmp_{pid}')
+    return text.replace(old_root, f'{root}/{pid}').replace('/tmp/neutral_tmp_C17', f'/tmp/neutral_tmp_{pid}').replace('/tmp/neutral2_tmp_C17', f'/tmp/neutral2_tmp_{pid}')
 
 
 if __name__ == '__main__':
